@@ -1,7 +1,177 @@
-//! C13 - placeholder, replaced below.
-use crate::model::Analysis;
-use crate::oracle::{Aux, Tally, Violation};
+//! C13 - HTTP: complete requests get a well-formed 401, anything else gets silence.
 
-pub fn check(_a: &Analysis, _aux: &mut Aux, _t: &mut Tally) -> Vec<Violation> {
-    Vec::new()
+use crate::apps::http::{self, HttpClass};
+use crate::model::Analysis;
+use crate::oracle::{size_class, Aux, Tally, Verdict, Violation};
+
+fn looks_http(b: &[u8]) -> bool {
+    http::METHODS.iter().any(|m| {
+        let n = m.len().min(b.len()).min(3);
+        n >= 3 && b[..n].eq_ignore_ascii_case(&m.as_bytes()[..n])
+    })
+}
+
+fn is_http_reply(r: &[u8]) -> bool {
+    r.starts_with(b"HTTP/")
+}
+
+pub fn check(a: &Analysis, _aux: &mut Aux, t: &mut Tally) -> Vec<Violation> {
+    let mut v = Vec::new();
+    // datagrams
+    for x in a.udp_exchanges() {
+        if !looks_http(x.payload) {
+            continue;
+        }
+        let idx = a.steps[x.si].idx;
+        let carrier = format!("udp{}", if x.v6 { 6 } else { 4 });
+        match http::classify(x.payload) {
+            HttpClass::Complete { end, method } => {
+                if end != x.payload.len() {
+                    t.any("trailing-bytes-after-request");
+                    continue;
+                }
+                t.judged(Verdict::Reply, format!("{}|complete|{}|{}", carrier, method, size_class(x.payload.len())));
+                if x.payload.iter().any(|c| *c >= 0x80) {
+                    t.probe("non-ascii-bytes-in-request");
+                }
+                match x.reply {
+                    Some(r) => {
+                        for (rule, detail) in http::check_response(r) {
+                            v.push(Violation {
+                                prop: "C13",
+                                rule: rule.into(),
+                                key: format!("response:{}", rule),
+                                step: idx,
+                                detail,
+                            });
+                        }
+                    }
+                    None => v.push(Violation {
+                        prop: "C13",
+                        rule: "unanswered".into(),
+                        key: format!("unanswered:{}:{}", carrier_kind(&carrier), method),
+                        step: idx,
+                        detail: format!("complete {} request of {} bytes over {} was not answered", method, x.payload.len(), carrier),
+                    }),
+                }
+            }
+            HttpClass::Incomplete | HttpClass::Malformed(_) => {
+                let why = match http::classify(x.payload) {
+                    HttpClass::Malformed(w) => w,
+                    _ => "incomplete",
+                };
+                t.judged(Verdict::Silent, format!("{}|{}", carrier, why));
+                if x.reply.map(is_http_reply).unwrap_or(false) {
+                    v.push(Violation {
+                        prop: "C13",
+                        rule: "answered".into(),
+                        key: format!("answered:{}", why),
+                        step: idx,
+                        detail: format!("request that is {} was answered with an HTTP response", why),
+                    });
+                }
+            }
+            HttpClass::DontCare(w) => t.any(w),
+        }
+    }
+    // streams
+    for st in a.tcp_streams() {
+        if st.dirty || st.segs.is_empty() || !looks_http(&st.stream) {
+            continue;
+        }
+        let v6 = matches!(st.flow.src, std::net::IpAddr::V6(_));
+        let carrier = format!("tcp{}", if v6 { 6 } else { 4 });
+        let first = &st.segs[0];
+        match http::classify(&st.stream) {
+            HttpClass::Complete { end, method } => {
+                if first.len < method.len() + 2 {
+                    t.any("cut-inside-signature(c11)");
+                    continue;
+                }
+                let trig = match st.seg_of(end - 1) {
+                    Some(k) => k,
+                    None => continue,
+                };
+                t.judged(
+                    Verdict::Reply,
+                    format!("{}|complete|{}|segs{}|trig{}", carrier, method, st.segs.len().min(5), trig.min(4)),
+                );
+                for (k, sg) in st.segs.iter().enumerate().take(trig + 1) {
+                    let idx = a.steps[sg.si].idx;
+                    let app = sg.reply_app.as_deref().unwrap_or(&[]);
+                    if k < trig {
+                        if !app.is_empty() {
+                            v.push(Violation {
+                                prop: "C13",
+                                rule: "answered-early".into(),
+                                key: "answered-before-complete".into(),
+                                step: idx,
+                                detail: format!("segment {} (stream bytes {}..{}) drew {} reply bytes although the request only completes at byte {}", k, sg.off, sg.off + sg.len, app.len(), end),
+                            });
+                        }
+                    } else if app.is_empty() {
+                        v.push(Violation {
+                            prop: "C13",
+                            rule: "unanswered".into(),
+                            key: format!("unanswered:tcp:{}", method),
+                            step: idx,
+                            detail: format!("the segment completing the {} request (stream byte {}) carried no response", method, end),
+                        });
+                    } else {
+                        for (rule, detail) in http::check_response(app) {
+                            v.push(Violation {
+                                prop: "C13",
+                                rule: rule.into(),
+                                key: format!("response:{}", rule),
+                                step: idx,
+                                detail,
+                            });
+                        }
+                    }
+                }
+            }
+            HttpClass::Incomplete | HttpClass::Malformed(_) => {
+                let why = match http::classify(&st.stream) {
+                    HttpClass::Malformed(w) => w,
+                    _ => "incomplete",
+                };
+                // judge the region up to the first empty line (a resynchronising server may answer later)
+                let limit = first_empty_line(&st.stream).unwrap_or(st.stream.len());
+                t.judged(Verdict::Silent, format!("{}|{}|segs{}", carrier, why, st.segs.len().min(5)));
+                for sg in st.segs.iter().filter(|s| s.off < limit) {
+                    if sg.reply_app.as_deref().map(is_http_reply).unwrap_or(false) {
+                        v.push(Violation {
+                            prop: "C13",
+                            rule: "answered".into(),
+                            key: format!("answered:{}", why),
+                            step: a.steps[sg.si].idx,
+                            detail: format!("stream whose request is {} was answered with an HTTP response", why),
+                        });
+                        break;
+                    }
+                }
+            }
+            HttpClass::DontCare(w) => t.any(w),
+        }
+    }
+    v
+}
+
+fn carrier_kind(c: &str) -> &'static str {
+    if c.starts_with("udp") {
+        "udp"
+    } else {
+        "tcp"
+    }
+}
+
+fn first_empty_line(b: &[u8]) -> Option<usize> {
+    let mut i = 0;
+    while i + 1 < b.len() {
+        if b[i] == b'\n' && (b[i + 1] == b'\n' || (i + 2 < b.len() && b[i + 1] == b'\r' && b[i + 2] == b'\n')) {
+            return Some(i + 2);
+        }
+        i += 1;
+    }
+    None
 }
